@@ -33,6 +33,19 @@ def showState (s : State) : String :=
 def decErr (t : String) : Option String :=
   if t == "-" then none else some (dec ((t.drop 2).toString))
 
+/-- Re-materialise a watch table as a lookup in an evaluated list (bounds the length of the update
+    chain a lookup walks). Extensionally the identity (`normalize_eq`). -/
+def normalize (s : State) : State :=
+  let tbl := Ty.all.map (fun t => (t, s t))
+  ⟨fun t => match tbl.find? (fun p => p.1 == t) with
+    | some p => p.2
+    | none => none⟩
+
+theorem normalize_eq (s : State) : normalize s = s := by
+  apply State.ext'
+  intro t
+  cases t <;> rfl
+
 def stepBasic (s : State) (toks : List String) : State × String :=
   match toks with
   | ["req", ty, names, nonce, err] =>
@@ -90,15 +103,15 @@ def stepD (d : DState) (toks : List String) : DState × String :=
     | some t => ({ d with ty := t, sys := Sys.init State.empty [] (dec nonce) }, "ok")
   | "case" :: _ => ({ d with st := State.empty }, "ok")
   | ["cchange", names] =>
-    let y := IstioModel.C04.step d.ty d.sys (.clientChange (decList names)); ({ d with sys := y }, showSys y)
+    let y := IstioModel.C04.step d.ty d.sys (.clientChange (decList names)); let y := { y with srv := normalize y.srv }; ({ d with sys := y }, showSys y)
   | ["crecv", nack] =>
-    let y := IstioModel.C04.step d.ty d.sys (.clientRecv (decNack nack)); ({ d with sys := y }, showSys y)
+    let y := IstioModel.C04.step d.ty d.sys (.clientRecv (decNack nack)); let y := { y with srv := normalize y.srv }; ({ d with sys := y }, showSys y)
   | ["srecv", n] =>
-    let y := IstioModel.C04.step d.ty d.sys (.serverRecv (dec n)); ({ d with sys := y }, showSys y)
+    let y := IstioModel.C04.step d.ty d.sys (.serverRecv (dec n)); let y := { y with srv := normalize y.srv }; ({ d with sys := y }, showSys y)
   | ["spush", n] =>
-    let y := IstioModel.C04.step d.ty d.sys (.serverPush (dec n)); ({ d with sys := y }, showSys y)
+    let y := IstioModel.C04.step d.ty d.sys (.serverPush (dec n)); let y := { y with srv := normalize y.srv }; ({ d with sys := y }, showSys y)
   | ["always"] =>
-    let y := IstioModel.C04.step d.ty d.sys .envAlways; ({ d with sys := y }, showSys y)
-  | _ => let (s', o) := stepBasic d.st toks; ({ d with st := s' }, o)
+    let y := IstioModel.C04.step d.ty d.sys .envAlways; let y := { y with srv := normalize y.srv }; ({ d with sys := y }, showSys y)
+  | _ => let (s', o) := stepBasic d.st toks; ({ d with st := normalize s' }, o)
 
 end IstioModel.C04
